@@ -17,7 +17,7 @@ import numpy as np
 from common import *
 
 PROP_MODULES = ["HvsrVerif.Props.C07"]
-BRIDGE_MODULES = ["HvsrVerif.Bridge.C07"]
+BRIDGE_MODULES = ["HvsrVerif.Bridge.C07", "HvsrVerif.Bridge.PyReaders"]
 EXE = "drv_c07"
 
 PERMS = ["".join(p) for p in itertools.permutations("NEZ")]
